@@ -225,15 +225,97 @@ theorem C18_filter (k : Keep) (hk : Static k) (d : List Obj) (hu : uniqueKeys d)
     simp only [List.mem_filter, decide_eq_true_eq] at ho
     simpa using least_restrict hk hl hl'.1 o ho.1 ho.2
 
+/-! ## the provided keep functions select what their documentation says (Spec.KeepSpec) -/
+
+/-- KeepBounds(b) on a node = position in the CLOSED rectangle (edges, corners, one-point and
+inverted rectangles included): `b.Overlaps(Point.Bounds())` with its `Empty` guards is exactly that. -/
+theorem overlaps_point (b : Rect) (x y : Int) :
+    b.overlaps (pointRect x y) = decide (inClosedRect b.minX b.minY b.maxX b.maxY x y) := by
+  obtain ⟨a, b', c, d⟩ := b
+  rw [Bool.eq_iff_iff]
+  show ((!(decide (c < a) || decide (d < b')) && !(decide (x < x) || decide (y < y)) && decide (a ≤ x) &&
+      decide (b' ≤ y) && decide (c ≥ x) && decide (d ≥ y)) = true) ↔
+    (decide (a ≤ x ∧ x ≤ c ∧ b' ≤ y ∧ y ≤ d) = true)
+  simp only [Bool.and_eq_true, Bool.not_eq_true', Bool.or_eq_false_iff, decide_eq_true_iff,
+    decide_eq_false_iff_not]
+  constructor <;> intro h <;> omega
+
+theorem specKeep_bounds (b : Rect) : keepBounds b = specKeep (.bounds b.minX b.minY b.maxX b.maxY) := by
+  unfold keepBounds specKeep
+  congr 1
+  funext o
+  simp only [KeepSpec.selectsBase, overlaps_point]
+
+theorem specKeep_all : keepAll = specKeep .all := rfl
+
+/-- keys of a Go `map[string][]string` are distinct -/
+def uniqueWant (want : List (Nat × List Nat)) : Prop := (want.map (·.1)).Nodup
+
+theorem find_of_unique {want : List (Nat × List Nat)} (hu : uniqueWant want) {w : Nat × List Nat}
+    (hw : w ∈ want) : want.find? (fun w' => w'.1 == w.1) = some w := by
+  induction want with
+  | nil => simp at hw
+  | cons a l ih =>
+    simp only [uniqueWant, List.map_cons, List.nodup_cons] at hu
+    rcases List.mem_cons.1 hw with rfl | hw'
+    · simp
+    · have hne : (a.1 == w.1) = false := by
+        simp only [beq_eq_false_iff_ne, ne_eq]
+        exact fun h => hu.1 (by rw [h]; exact List.mem_map_of_mem hw')
+      rw [List.find?_cons, hne]
+      exact ih hu.2 hw'
+
+/-- KeepTags(want) = "carries a wanted key with one of its listed values (none listed = any)" -/
+theorem specKeep_tags (want : List (Nat × List Nat)) (hu : uniqueWant want) :
+    keepTags want = specKeep (.tags want) := by
+  unfold keepTags specKeep
+  congr 1
+  funext o
+  simp only [hasTag, KeepSpec.selectsBase]
+  congr 1
+  funext t
+  rw [Bool.eq_iff_iff]
+  simp only [wantsTag, List.any_eq_true, Bool.and_eq_true, beq_iff_eq]
+  constructor
+  · intro h
+    cases hf : want.find? (fun w => w.1 == t.1) with
+    | none => simp [hf] at h
+    | some w =>
+      simp only [hf] at h
+      exact ⟨w, List.mem_of_find?_eq_some hf, by simpa using List.find?_some hf, h⟩
+  · rintro ⟨w, hw, hk, hv⟩
+    have := find_of_unique hu hw
+    rw [hk] at this
+    simp only [this]
+    exact hv
+
+/-- **C18_provided_keeps**: for the three provided keep functions, stated with their DOCUMENTED
+selection: the fixed `extract` returns `doc` filtered by the least set closed for `specKeep ks` —
+for by-bounds that is the closed rectangle, every edge and corner included. -/
+theorem C18_provided_keeps (ks : KeepSpec) (k : Keep)
+    (hk : (∃ b : Rect, ks = .bounds b.minX b.minY b.maxX b.maxY ∧ k = keepBounds b) ∨
+          (∃ want, uniqueWant want ∧ ks = .tags want ∧ k = keepTags want) ∨ (ks = .all ∧ k = keepAll))
+    (W : Nat) (hW : 0 < W) (doc : Doc) (hu : uniqueKeys doc) (sched : List (List Nat)) :
+    ∃ K : List Ref, IsLeastClosed doc (specKeep ks) (· ∈ K) ∧
+      extractRun true k W doc sched = .ok (doc.filter fun o => decide (o.key ∈ K)) := by
+  have : k = specKeep ks := by
+    rcases hk with ⟨b, rfl, rfl⟩ | ⟨want, hw, rfl, rfl⟩ | ⟨rfl, rfl⟩
+    · exact specKeep_bounds b
+    · exact specKeep_tags want hw
+    · exact specKeep_all
+  subst this
+  exact C18_complete _ W hW doc hu sched
+
 theorem static_keepAll : Static keepAll := fun _ => rfl
 theorem static_keepTags (want : List (Nat × List Nat)) : Static (keepTags want) := fun _ => rfl
 
 /-! ## the original loop condition is incomplete (negation on the model, concrete witnesses) -/
 
-def n1 : Obj := ⟨⟨.node, 1⟩, [], true, []⟩
-def n2 : Obj := ⟨⟨.node, 2⟩, [], false, []⟩
-def w1 : Obj := ⟨⟨.way, 1⟩, [⟨.node, 1⟩, ⟨.node, 2⟩], false, []⟩
-def w1' : Obj := ⟨⟨.way, 1⟩, [⟨.node, 1⟩], false, []⟩
+def n1 : Obj := ⟨⟨.node, 1⟩, [], 1, 1, []⟩   -- on the north-east corner of `box`
+def n2 : Obj := ⟨⟨.node, 2⟩, [], 5, 5, []⟩   -- outside
+def w1 : Obj := ⟨⟨.way, 1⟩, [⟨.node, 1⟩, ⟨.node, 2⟩], 0, 0, []⟩
+def w1' : Obj := ⟨⟨.way, 1⟩, [⟨.node, 1⟩], 0, 0, []⟩
+def box : Rect := ⟨0, 0, 1, 1⟩
 
 def keys : Except Fault (List Obj) → Option (List Ref)
   | .ok r => some (r.map (·.key))
@@ -243,9 +325,9 @@ def keys : Except Fault (List Obj) → Option (List Ref)
 With the original condition (`fos = false`) `extract` keeps only `n1`; the least closed set (and the
 fixed `extract`) has all three objects. -/
 theorem C18_original_condition_incomplete_seq :
-    keys (extractRun false keepBounds 1 [w1, n1, n2] []) = some [⟨.node, 1⟩] ∧
-    keys (extractRun true keepBounds 1 [w1, n1, n2] []) = some [⟨.way, 1⟩, ⟨.node, 1⟩, ⟨.node, 2⟩] ∧
-    (⟨.way, 1⟩ : Ref) ∈ closure [w1, n1, n2] keepBounds := by
+    keys (extractRun false (keepBounds box) 1 [w1, n1, n2] []) = some [⟨.node, 1⟩] ∧
+    keys (extractRun true (keepBounds box) 1 [w1, n1, n2] []) = some [⟨.way, 1⟩, ⟨.node, 1⟩, ⟨.node, 2⟩] ∧
+    (⟨.way, 1⟩ : Ref) ∈ closure [w1, n1, n2] (keepBounds box) := by
   decide
 
 /-- **concurrent** witness (DESIGN 1.1 (ii)): nodes first, two workers.  Worker 0 dequeues `n1` and
@@ -253,9 +335,9 @@ decides to keep it; before it stores, worker 1 dequeues `w1'`, reads "w1' not st
 "n1 not kept" and drops `w1'`; then worker 0 stores `n1`.  The original condition ends the loop with `{n1}`; the sequential schedule gives `{n1, w1'}`.
 So the original `extract` is schedule dependent. -/
 theorem C18_original_condition_incomplete_par :
-    keys (extractRun false keepBounds 2 [n1, w1'] [[0, 0, 1, 1, 1, 0]]) = some [⟨.node, 1⟩] ∧
-    keys (extractRun false keepBounds 2 [n1, w1'] []) = some [⟨.node, 1⟩, ⟨.way, 1⟩] ∧
-    keys (extractRun true keepBounds 2 [n1, w1'] [[0, 0, 1, 1, 1, 0]]) = some [⟨.node, 1⟩, ⟨.way, 1⟩] := by
+    keys (extractRun false (keepBounds box) 2 [n1, w1'] [[0, 0, 1, 1, 1, 0]]) = some [⟨.node, 1⟩] ∧
+    keys (extractRun false (keepBounds box) 2 [n1, w1'] []) = some [⟨.node, 1⟩, ⟨.way, 1⟩] ∧
+    keys (extractRun true (keepBounds box) 2 [n1, w1'] [[0, 0, 1, 1, 1, 0]]) = some [⟨.node, 1⟩, ⟨.way, 1⟩] := by
   decide
 
 /-! ## non-vacuity of the hypotheses -/
@@ -269,9 +351,12 @@ example : noDangling [w1, n1, n2] := by
   simp at ho
   rcases ho with rfl | rfl | rfl <;> simp [w1, n1, n2, Present] at hr ⊢
   rcases hr with rfl | rfl <;> simp
-example : Closed [w1, n1, n2] keepBounds (fun _ => True) := closed_univ _ _
-example : Mode ⟨true, keepBounds, 4⟩ := .inl rfl
-example : ∃ c, Reach ⟨true, keepBounds, 2⟩ [w1, n1, n2] c :=
+example : Closed [w1, n1, n2] (keepBounds box) (fun _ => True) := closed_univ _ _
+example : Mode ⟨true, keepBounds box, 4⟩ := .inl rfl
+example : ∃ c, Reach ⟨true, keepBounds box, 2⟩ [w1, n1, n2] c :=
   ⟨_, Reach.init [w1, n1, n2] (fun _ => Iff.rfl)⟩
+
+/-- a node ON the north-east corner is selected; just outside it is not (non-vacuity of the edge case) -/
+example : (keepBounds box).base n1 = true ∧ (keepBounds box).base (⟨⟨.node, 3⟩, [], 2, 1, []⟩ : Obj) = false := by decide
 
 end GeomV.C18
